@@ -114,9 +114,15 @@ func (impl *pbAnyImpl) setAny(val *any_j5t.Any) error {
 func (impl *pbAnyImpl) getAny() (*any_j5t.Any, error) {
 	typeUrl := impl.value.Get(impl.typeUrlField).String()
 	typeName := strings.TrimPrefix(typeUrl, anyPrefix)
+	protoBytes := impl.value.Get(impl.valueField).Bytes()
+	if protoBytes == nil {
+		// proto3 bytes fields have no presence: a message with every field at
+		// its default encodes to zero bytes, which reads back as nil.
+		protoBytes = []byte{}
+	}
 	return &any_j5t.Any{
 		TypeName: typeName,
-		Proto:    impl.value.Get(impl.valueField).Bytes(),
+		Proto:    protoBytes,
 	}, nil
 }
 
